@@ -16,37 +16,77 @@ open Gep.R
 /-- the defining relation between the three variables -/
 def Consistent (M2 x w q : ℝ) : Prop := x = q / (w ^ 2 + q - M2)
 
-/-- from (W, Q2): the supplied xB satisfies the relation (no side condition) -/
-theorem fill_from_W_Q2 (M2 w q : ℝ) (t : ℝ) (ht : t ≤ 0) :
+theorem isZero_iff (d : ℝ) : isZero d = true ↔ d = 0 := by
+  unfold isZero
+  constructor
+  · intro h
+    by_cases h1 : d < 0
+    · simp [h1] at h
+    · by_cases h2 : d > 0
+      · simp [h1, h2] at h
+      · linarith [not_lt.1 h1, not_lt.1 h2]
+  · rintro rfl; simp
+
+theorem isZero_false {d : ℝ} (h : d ≠ 0) : isZero d = false := by
+  cases hz : isZero d with
+  | false => rfl
+  | true => exact absurd ((isZero_iff d).1 hz) h
+
+/-- from (W, Q2): the supplied xB satisfies the relation — wherever Python's divisions are defined
+    (W² + Q² ≠ M², and the resulting xB ≠ 2 for xi); otherwise see `fill_zero_division` -/
+theorem fill_from_W_Q2 (M2 w q : ℝ) (t : ℝ) (ht : t ≤ 0) (hd : w ^ 2 + q - M2 ≠ 0)
+    (hx2 : 2 - q / (w ^ 2 + q - M2) ≠ 0) :
     fill M2 { W := some w, Q2 := some q, t := some t } =
       .ok { xB := some (q / (w ^ 2 + q - M2)), W := some w, Q2 := some q, t := some t,
             tm := some (-t), xi := some ((q / (w ^ 2 + q - M2)) / (2 - q / (w ^ 2 + q - M2))) } := by
-  simp [fill, countTrio, completeTrio, ht]
+  simp [fill, fillDuo, countTrio, completeTrio, trioRaises, isZero_false hd, isZero_false hx2, ht]
 
-/-- from (xB, Q2): W is supplied and the relation holds, for 0 < xB, 0 ≤ W² -/
-theorem fill_from_xB_Q2 (M2 x q : ℝ) (hx : x ≠ 0) (hq : q ≠ 0) (hw : 0 ≤ q / x - q + M2) :
+/-- from (xB, Q2): W is supplied and the relation holds, for xB ≠ 0, 2 and 0 ≤ W² -/
+theorem fill_from_xB_Q2 (M2 x q : ℝ) (hx : x ≠ 0) (hq : q ≠ 0) (hw : 0 ≤ q / x - q + M2) (hx2 : 2 - x ≠ 0) :
     ∃ w, fill M2 { xB := some x, Q2 := some q } =
         .ok { xB := some x, W := some w, Q2 := some q, xi := some (x / (2 - x)) } ∧
       Consistent M2 x w q := by
-  refine ⟨Real.sqrt (q / x - q + M2), by simp [fill, countTrio, completeTrio, ksqrt], ?_⟩
+  refine ⟨Real.sqrt (q / x - q + M2), by
+    simp [fill, fillDuo, countTrio, completeTrio, trioRaises, isZero_false hx, isZero_false hx2, not_lt.2 hw, ksqrt], ?_⟩
   unfold Consistent
   rw [Real.sq_sqrt hw]
   field_simp
   ring_nf
   field_simp
 
-/-- from (xB, W): Q2 is supplied and the relation holds, for xB ≠ 1, W² ≠ M² -/
-theorem fill_from_xB_W (M2 x w : ℝ) (hx : x ≠ 1) (hw : w ^ 2 - M2 ≠ 0) :
+/-- from (xB, W): Q2 is supplied and the relation holds, for xB ≠ 1, 2 and W² ≠ M² -/
+theorem fill_from_xB_W (M2 x w : ℝ) (hx : x ≠ 1) (hw : w ^ 2 - M2 ≠ 0) (hx2 : 2 - x ≠ 0) :
     ∃ q, fill M2 { xB := some x, W := some w } =
         .ok { xB := some x, W := some w, Q2 := some q, xi := some (x / (2 - x)) } ∧
       Consistent M2 x w q := by
-  refine ⟨x * (w ^ 2 - M2) / (1 - x), by simp [fill, countTrio, completeTrio], ?_⟩
-  unfold Consistent
   have h1 : (1 - x) ≠ 0 := fun h => hx (by linarith)
+  refine ⟨x * (w ^ 2 - M2) / (1 - x), by
+    simp [fill, fillDuo, countTrio, completeTrio, trioRaises, isZero_false h1, isZero_false hx2], ?_⟩
+  unfold Consistent
   have h2 : w ^ 2 + x * (w ^ 2 - M2) / (1 - x) - M2 = (w ^ 2 - M2) / (1 - x) := by
     field_simp; ring
   rw [h2]
   field_simp
+
+/-- the error branches, as Python takes them: a vanishing denominator raises ZeroDivisionError (W² + Q² = M² for
+    (W, Q2); xB = 0 for (xB, Q2); xB = 1 for (xB, W); xB = 2 for xi), whatever t or tm say -/
+theorem fill_zero_division (M2 w q x : ℝ) (t tm : Option ℝ) :
+    (w ^ 2 + q - M2 = 0 → fill M2 { W := some w, Q2 := some q, t := t, tm := tm } = .zeroDivisionError) ∧
+    (fill M2 { xB := some 0, Q2 := some q, t := t, tm := tm } = .zeroDivisionError) ∧
+    (fill M2 { xB := some 1, W := some w, t := t, tm := tm } = .zeroDivisionError) ∧
+    (fill M2 { xB := some 2, t := t, tm := tm } = .zeroDivisionError) := by
+  refine ⟨fun h => ?_, ?_, ?_, ?_⟩
+  · simp [fill, countTrio, trioRaises, (isZero_iff _).2 h]
+  · simp [fill, countTrio, trioRaises, (isZero_iff (0:ℝ)).2 rfl]
+  · have h0 : isZero (0 : ℝ) = true := (isZero_iff 0).2 rfl
+    simp [fill, countTrio, trioRaises, h0]
+  · have h0 : isZero (0 : ℝ) = true := (isZero_iff 0).2 rfl
+    simp [fill, countTrio, h0]
+
+/-- … and a negative W² = Q²/xB − Q² + M² raises ValueError (math.sqrt) -/
+theorem fill_math_domain (M2 x q : ℝ) (t tm : Option ℝ) (hx : x ≠ 0) (hneg : q / x - q + M2 < 0) :
+    fill M2 { xB := some x, Q2 := some q, t := t, tm := tm } = .valueError := by
+  simp [fill, countTrio, trioRaises, isZero_false hx, hneg]
 
 /-- completion from any pair of a consistent physical triple reproduces the same triple -/
 theorem completion_agrees (M2 x w q : ℝ) (hc : Consistent M2 x w q) (hx0 : 0 < x) (hx1 : x < 1)
@@ -78,21 +118,27 @@ theorem fill_xi_tm (M2 : ℝ) (k k' : Kin) (h : fill M2 k = .ok k') :
   unfold fill at h
   split at h
   · cases h
-  · simp only at h
-    rcases hxb : k.xB with _ | x <;> rcases hw : k.W with _ | w <;> rcases hq : k.Q2 with _ | q <;>
+  · rcases hxb : k.xB with _ | x <;> rcases hw : k.W with _ | w <;> rcases hq : k.Q2 with _ | q <;>
     rcases ht : k.t with _ | t <;> rcases htm : k.tm with _ | tm <;>
-    simp only [hxb, hw, hq, ht, htm, countTrio, completeTrio, Option.isSome_none, Option.isSome_some,
-      Option.getD_some, Option.getD_none] at h <;>
-    (try split at h) <;> (try cases h) <;> simp_all
+    simp only [hxb, hw, hq, ht, htm, countTrio, completeTrio, trioRaises, fillDuo, Option.isSome_none,
+      Option.isSome_some, Option.getD_some, Option.getD_none] at h <;>
+    (repeat' split at h) <;> (try cases h) <;> simp_all
 
 /-- over-determined input is rejected -/
 theorem fill_overdetermined_trio (M2 x w q : ℝ) (k : Kin) (h : k.xB = some x) (h2 : k.W = some w)
     (h3 : k.Q2 = some q) : fill M2 k = .kinematicsError := by
   simp [fill, countTrio, h, h2, h3]
 
-theorem fill_overdetermined_duo (M2 t tm : ℝ) (k : Kin) (h : k.t = some t) (h2 : k.tm = some tm)
-    (h3 : countTrio k ≠ 3) : fill M2 k = .kinematicsError := by
-  simp [fill, h, h2, h3]
+/-- … also when both t and tm are given: never accepted (KinematicsError, unless an earlier statement already
+    raised one of the exceptions above) -/
+theorem fill_overdetermined_duo (M2 t tm : ℝ) (k : Kin) (h : k.t = some t) (h2 : k.tm = some tm) :
+    ∀ k', fill M2 k ≠ .ok k' := by
+  intro k' hk
+  unfold fill at hk
+  split at hk
+  · cases hk
+  · simp only [fillDuo, h, h2] at hk
+    (repeat' split at hk) <;> (try cases hk)
 
 /-- under-determined input (at most one of the trio) is left untouched: only xi is added -/
 theorem fill_underdetermined (M2 : ℝ) (k k' : Kin) (hc : countTrio k ≤ 1) (h : fill M2 k = .ok k') :
@@ -102,7 +148,7 @@ theorem fill_underdetermined (M2 : ℝ) (k k' : Kin) (hc : countTrio k ≤ 1) (h
   have h2 : countTrio k ≠ 2 := by omega
   simp only [h3, h2, if_false] at h
   rcases hxb : k.xB with _ | x <;> rcases ht : k.t with _ | t <;> rcases htm : k.tm with _ | tm <;>
-  simp only [hxb, ht, htm] at h <;> (try split at h) <;> (try cases h) <;> simp_all
+  simp only [hxb, ht, htm, fillDuo] at h <;> (repeat' split at h) <;> (try cases h) <;> simp_all
 
 /-! ### conventions -/
 
@@ -116,10 +162,6 @@ theorem map_scale (l : List ℝ) :
   induction l with
   | nil => rfl
   | cons a as ih => simp only [List.map_cons, ih, Function.comp]; congr 1; ring
-
-/-- phi and harmonic are alternatives; so are varphi and its harmonic (the property's domain) -/
-def WellFormed (p : CPt) : Prop :=
-  (p.phi = none ∨ p.FTn = none) ∧ (p.varphi = none ∨ p.varFTn = none)
 
 /-- to internal conventions and back restores angles, value and all uncertainties —
     for every frame, unit and harmonic index -/
@@ -136,31 +178,31 @@ theorem from_to_conventions (p q : CPt) (h : toConv p = some q) : fromConv q = p
     (first | done | exact map_scale _ | exact ⟨map_scale _, trivial⟩ | (constructor <;> first | exact map_scale _ | trivial | ring))
 
 /-- converting a prediction to the original conventions is the map `from_conventions` applies to
-    the value (for points carrying an angle or its harmonic, not both) -/
-theorem orig_conventions_is_from (q : CPt) (v : ℝ) (hw : WellFormed q) :
+    the value — for EVERY point, also one that carries an angle together with a harmonic index (a transversely
+    polarised point loaded from a file has `varphi` from its column and `varFTn = -1` by default) -/
+theorem orig_conventions_is_from (q : CPt) (v : ℝ) :
     origConv q v = (fromConv { q with val := v }).val := by
   obtain ⟨val, errs, phi, FTn, varphi, varFTn, trento, phiDeg, pb⟩ := q
-  obtain ⟨h1, h2⟩ := hw
-  simp only at h1 h2
   cases trento <;> cases phiDeg <;> cases pb <;> rcases phi with _ | f <;>
     rcases FTn with _ | n <;> rcases varphi with _ | w <;> rcases varFTn with _ | m <;>
     (try cases hn : flipsFTn n) <;> (try cases hm : flipsVar m) <;>
     simp_all [origConv, fromConv]
 
 /-- … and therefore undoes what `to_conventions` did to the measured value -/
-theorem orig_conventions_inverse (p q : CPt) (hw : WellFormed p) (h : toConv p = some q) :
+theorem orig_conventions_inverse (p q : CPt) (h : toConv p = some q) :
     origConv q q.val = p.val := by
-  have hq : WellFormed q := by
-    obtain ⟨val, errs, phi, FTn, varphi, varFTn, trento, phiDeg, pb⟩ := p
-    obtain ⟨h1, h2⟩ := hw
-    simp only at h1 h2
-    cases trento <;> cases phiDeg <;> cases pb <;> rcases phi with _ | f <;>
-      rcases FTn with _ | n <;> rcases varphi with _ | w <;> rcases varFTn with _ | m <;>
-      (try cases hn : flipsFTn n) <;> (try cases hm : flipsVar m) <;>
-      simp_all [toConv, WellFormed] <;> subst h <;> simp
-  rw [orig_conventions_is_from q q.val hq]
+  rw [orig_conventions_is_from q q.val]
   have : ({ q with val := q.val } : CPt) = q := rfl
   rw [this, from_to_conventions p q h]
+
+/-- the code before the repair did NOT have the property: for a Trento-frame point with `varphi` and the default
+    `varFTn = -1` the measured value is left alone by `to_conventions` / `from_conventions`, but the prediction
+    was negated -/
+theorem orig_conventions_old_refuted :
+    let q : CPt := { val := 1, errs := [], phi := none, FTn := none, varphi := some 0, varFTn := some (-1),
+                     trento := true, phiDeg := false, pb := false }
+    origConvOld q 1 = -1 ∧ (fromConv q).val = 1 ∧ origConv q 1 = 1 := by
+  simp [origConvOld, origConv, fromConv, flipsVar]
 
 /-- the harmonic sign table used in both directions: odd cosine harmonics and the second sine
     harmonic change sign between the Trento and BMK frames -/
